@@ -244,6 +244,8 @@ var c10Scenarios = map[string][]string{
 	// the same while time passes, followed by one more keep-alive: whatever check-in time the race
 	// left behind decides what that keep-alive bills
 	"reconnect-vs-update-vs-clock": {"conn C1", "upd C1 H1", "tick 30s", "then:tick 40s", "then:upd C1 H1"},
+	// (the later request of one node must carry the higher nonce to be accepted: both orders)
+	"update-vs-reconnect-vs-clock": {"upd C1 H1", "conn C1", "tick 30s", "then:tick 40s", "then:upd C1 H1"},
 	"two-updates-vs-clock":         {"upd C1 H1,H2", "upd C1 H1", "tick 30s", "then:tick 40s", "then:upd C1 H1"},
 	"link-vs-update":               {"link W1 C2", "upd C2 H1,H2"},
 	"link-host-vs-update":          {"link W1 H1", "upd C1 H1"},
